@@ -1335,13 +1335,11 @@ def _extract_merge():
 
 
 def _write_tlv_var(repo):
-    """lean/NdnGen/TlvVar.lean: the pure helpers of tlv_var.py translated from the source text of the tree under test
-    (harness/py2lean.py); lean/NdnProofs/Props/TlvVarGen.lean proves them equal to the model functions"""
+    """lean/NdnGen/TlvVar.lean (and Component.lean, for C09): the pure helpers of tlv_var.py translated from the source
+    text of the tree under test (harness/py2lean.py); lean/NdnProofs/Props/TlvVarGen.lean proves them equal to the
+    model functions"""
     import py2lean
-    lib = __import__('lib')
-    text = py2lean.generate(repo)
-    with lib.Lock(os.path.join(lib.LEAN, '.build.lock')):
-        lib.write_if_changed(os.path.join(lib.LEAN, 'NdnGen', 'TlvVar.lean'), text)
+    py2lean.write_generated(repo)
 
 
 def extract(repo):
